@@ -13,14 +13,14 @@ VERIF = os.path.dirname(os.path.dirname(os.path.abspath(__file__)))
 CRATE = os.path.join(VERIF, "c15miri")
 TARGET = os.path.join(VERIF, "target", "miri")
 # (cpus, days, threshold): both sides of days vs workers, empty range, non-divisible lengths
-CONFIGS = [(2, 2, 0), (2, 0, 0), (3, 2, 0), (3, 4, 1), (5, 5, 1), (3, 7, 2), (4, 1, 0), (2, 5, 3)]
+CONFIGS = [(2, 2, 0), (2, 0, 0), (3, 2, 0), (3, 4, 1), (5, 5, 1), (3, 7, 2), (4, 1, 0), (2, 5, 3), (3, 3, 0, "panic")]
 PREEMPT = ["0.01", "0.05", "0.2"]
 
-def miri(cpus, days, thr, seeds, preempt, timeout):
+def miri(cpus, days, thr, seeds, preempt, timeout, mode=None):
     env = dict(os.environ)
     env["CARGO_NET_OFFLINE"] = "true"
     env["MIRIFLAGS"] = f"-Zmiri-deterministic-floats -Zmiri-num-cpus={cpus} -Zmiri-many-seeds={seeds} -Zmiri-preemption-rate={preempt}"
-    cmd = ["cargo", "+nightly", "miri", "run", "--offline", "--manifest-path", os.path.join(CRATE, "Cargo.toml"), "--target-dir", TARGET, "--", str(days), str(thr)]
+    cmd = ["cargo", "+nightly", "miri", "run", "--offline", "--manifest-path", os.path.join(CRATE, "Cargo.toml"), "--target-dir", TARGET, "--", str(days), str(thr)] + ([mode] if mode else [])
     t0 = time.time()
     try:
         r = subprocess.run(cmd, env=env, stdout=subprocess.PIPE, stderr=subprocess.STDOUT, text=True, timeout=timeout)
@@ -63,11 +63,13 @@ def run(args):
         print("miri leg: skipped (Miri unavailable)")
         return 0
     exit_code = 0
-    for k, (cpus, days, thr) in enumerate(CONFIGS):
+    for k, cfg in enumerate(CONFIGS):
+        cpus, days, thr = cfg[:3]
+        mode = cfg[3] if len(cfg) > 3 else None
         preempt = PREEMPT[k % len(PREEMPT)]
-        rc, out, wall = miri(cpus, days, thr, f"0..{nseeds}", preempt, 1800)
+        rc, out, wall = miri(cpus, days, thr, f"0..{nseeds}", preempt, 1800, mode)
         passed = out.count("ok cpus=")
-        row = {"cpus": cpus, "days": days, "thr": thr, "seeds": f"0..{nseeds}", "preemption_rate": preempt, "passed": passed, "wall_s": round(wall, 1)}
+        row = {"cpus": cpus, "days": days, "thr": thr, "mode": mode or "equal-maps", "seeds": f"0..{nseeds}", "preemption_rate": preempt, "passed": passed, "wall_s": round(wall, 1), "both_panicked": out.count("both panicked")}
         summary["seeds_total"] += passed
         if rc is None:
             row["result"] = "timeout (not decisive)"
@@ -78,7 +80,7 @@ def run(args):
             cls = classify(out)
             bad = None
             for s in range(nseeds):
-                rc1, out1, _ = miri(cpus, days, thr, f"{s}..{s+1}", preempt, 900)
+                rc1, out1, _ = miri(cpus, days, thr, f"{s}..{s+1}", preempt, 900, mode)
                 if rc1 not in (0, None):
                     bad, cls = s, classify(out1)
                     out = out1
@@ -88,7 +90,7 @@ def run(args):
             rp = os.path.join(VERIF, "replays", f"C15-miri-{cpus}-{days}-{thr}-{bad}.json")
             os.makedirs(os.path.dirname(rp), exist_ok=True)
             msg = [l for l in out.splitlines() if re.search(r"error|panicked|MISMATCH|deadlock", l)][:6]
-            json.dump({"property": "C15", "engine": "miri", "class": cls, "cpus": cpus, "days": days, "thr": thr, "seed": bad, "preemption_rate": preempt, "message": msg}, open(rp, "w"), indent=1)
+            json.dump({"property": "C15", "engine": "miri", "class": cls, "cpus": cpus, "days": days, "thr": thr, "mode": mode, "seed": bad, "preemption_rate": preempt, "message": msg}, open(rp, "w"), indent=1)
             summary["failure"] = {"replay": rp, "class": cls, "message": msg}
             print(f"miri leg: cpus={cpus} days={days} thr={thr} seed={bad}: {cls}")
             for l in msg:
@@ -108,7 +110,7 @@ def replay(args):
     c = json.load(open(args[0]))
     prepare()
     s = c["seed"] if c["seed"] is not None else 0
-    rc, out, _ = miri(c["cpus"], c["days"], c["thr"], f"{s}..{s+1}", c.get("preemption_rate", "0.05"), 1800)
+    rc, out, _ = miri(c["cpus"], c["days"], c["thr"], f"{s}..{s+1}", c.get("preemption_rate", "0.05"), 1800, c.get("mode"))
     if rc == 0:
         print("miri replay: not reproduced on this tree")
         return 0
